@@ -50,7 +50,17 @@ func main() {
 	canaryFired := flag.Int("canary-fired", 0, "thorough tier: number of canaries on which the expected rule fired")
 	canaryFailed := flag.String("canary-failed", "", "thorough tier: canaries that did not fire (rule has gone blind)")
 	dumpAnchors := flag.String("dump-anchors", "", "run every property and write the fingerprints of all functions looked up by name to this file (maintenance: regenerates anchors.json)")
+	dumpOpt := flag.String("dump-optderef", "", "maintenance: list optional-element dereferences in these comma-separated packages")
 	flag.Parse()
+	if *dumpOpt != "" {
+		p, err := core.Load(*repo, nil)
+		if err != nil {
+			fmt.Fprintln(os.Stderr, err)
+			os.Exit(2)
+		}
+		props.DumpOptDerefs(p, strings.Split(*dumpOpt, ","))
+		return
+	}
 	if *dumpAnchors != "" {
 		p, err := core.Load(*repo, nil)
 		if err != nil {
